@@ -332,10 +332,13 @@ fn process_tcp_packet(
                 return Ok(observable_http_package);
             }
 
-            // Clean up on connection close
-            if tcp.get_flags()
-                & (pnet::packet::tcp::TcpFlags::FIN | pnet::packet::tcp::TcpFlags::RST)
-                != 0
+            // Clean up on connection close. A FIN seen after the request was reported and before
+            // the response was (client half-close, common with HTTP/1.0 clients) does not end the
+            // exchange: keep the flow so that the response can still be reported.
+            let flags = tcp.get_flags();
+            let response_pending = flow.client_http_parsed && !flow.server_http_parsed;
+            if flags & pnet::packet::tcp::TcpFlags::RST != 0
+                || (flags & pnet::packet::tcp::TcpFlags::FIN != 0 && !response_pending)
             {
                 debug!("Connection closed or reset");
                 http_flows.remove(&flow_key);
